@@ -399,6 +399,15 @@ class ScenarioGen:
         p = g.choice([0.001, 0.01, 0.05, 0.3]) if n > 1 else 0.0
         setorder = g.choice(["off", "off", "off", "reverse", "rotate", "shuffle", "shuffle"])
         pool = self.text_pool(g, tg)
+        # one markup rendering per pool text, so that the *same* markup meets
+        # different clean_steps (and plain calls on its cleaned text) within a run
+        mkpool = {}
+
+        def markup_of(t):
+            if t not in mkpool:
+                mkpool[t] = tg.markup(t)
+            return mkpool[t]
+
         threads = []
         for t in range(n):
             k = g.randrange(2, 9)
@@ -416,7 +425,7 @@ class ScenarioGen:
                     if y < 0.15:
                         op["ra"] = True
                     elif y < 0.27 and text not in ("", "eyecite"):
-                        op = {"op": "H1", "text": "", "markup": tg.markup(text),
+                        op = {"op": "H1", "text": "", "markup": markup_of(text),
                               "clean": g.choice([["html", "all_whitespace"], ["html"],
                                                  ["html", "inline_whitespace"],
                                                  ["html", "@rep:,:;", "all_whitespace"],
@@ -428,7 +437,7 @@ class ScenarioGen:
                                                 ["@rep:v.:vs.", "inline_whitespace"], ["@rep: at : @ "]])
                     elif y < 0.35 and text not in ("", "eyecite"):
                         # a call that raises: markup without the html step
-                        op = {"op": "H1", "text": "", "markup": tg.markup(text),
+                        op = {"op": "H1", "text": "", "markup": markup_of(text),
                               "clean": ["all_whitespace"]}
                 elif x < 0.72:
                     ext = self.ext_for(text)
@@ -448,7 +457,7 @@ class ScenarioGen:
                     op = {"op": "H1", "text": text}
                 elif x < 0.92 and text not in ("", "eyecite"):
                     cl = g.choice([["html", "all_whitespace"], ["html"], ["html", "inline_whitespace"]])
-                    mk = tg.markup(text)
+                    mk = markup_of(text)
                     opsl.append({"op": "H1", "text": "", "markup": mk, "clean": cl})
                     op = {"op": "H1c", "markup": mk, "clean": cl}
                     if g.random() < 0.5:
@@ -1017,6 +1026,11 @@ class Checker:
         for a in atlas:
             if a["tie"]:
                 oplist.append({"op": "H1", "text": a["t"]})
+        # every reporter string whose single token carries several candidate
+        # editions (their order, the edition guess and the value hash are at stake)
+        multi = [a for a in atlas if not a["tie"] and a.get("ned", 0) >= 2 and a["form"] == "full"]
+        for a in multi:
+            oplist.append({"op": "H1", "text": a["t"] + " (1990)" if g.random() < 0.3 else a["t"]})
         ties = [a for a in atlas if a["tie"]]
         for i in range(self.cfg["docs"]):
             x = g.random()
